@@ -33,7 +33,15 @@ def _dict_keys(d):
 
 
 def _type_test(test):
-    """P.get("__type__") == "T"  ->  (P, T) ; also P["__type__"] == "T" """
+    """P.get("__type__") == "T"  ->  (P, T) ; also P["__type__"] == "T" ; `!=` gives (P, T, False)"""
+    if isinstance(test, ast.UnaryOp) and isinstance(test.op, ast.Not):
+        tt = _type_test(test.operand)
+        if tt is not None:
+            return (tt[0], tt[1], not (tt[2] if len(tt) > 2 else True))
+        return None
+    if isinstance(test, ast.Compare) and len(test.ops) == 1 and isinstance(test.ops[0], ast.NotEq):
+        tt = _type_test(ast.Compare(left=test.left, ops=[ast.Eq()], comparators=test.comparators))
+        return (tt[0], tt[1], False) if tt is not None else None
     if isinstance(test, ast.Compare) and len(test.ops) == 1 and isinstance(test.ops[0], ast.Eq):
         l, r = test.left, test.comparators[0]
         for a, b in ((l, r), (r, l)):
@@ -67,7 +75,8 @@ def _key_reads(fi, param):
                 d = flow.single_def(test.id)
                 tt = _type_test(d) if d is not None else None
             if tt and (tt[0] == param):
-                (pos if pol else neg).append(tt[1])
+                same = pol if (len(tt) < 3 or tt[2]) else not pol
+                (pos if same else neg).append(tt[1])
         out.append((key, n, tuple(pos), tuple(neg)))
     return out
 
